@@ -1,6 +1,7 @@
 package c20
 
 import (
+	"verif/mc/maporder"
 	"context"
 	"crypto/sha256"
 	"encoding/hex"
@@ -56,7 +57,7 @@ var switchNames = []string{"podGrouper", "binder", "queueController", "podGroupC
 
 type cfgC struct {
 	Mask    uint `json:"enabled_mask"` // bit i = switchNames[i] enabled
-	Variant int  `json:"variant"`      // 0 defaults, 1 = global replicaCount 2 + binder image tag "v2", 2 = global nodeSelector + tolerations + security context (no pull secrets: the operator merges them into service accounts that other actors add secrets to, deliberately never removing any)
+	Variant int  `json:"variant"`      // 0 defaults, 1 = global replicaCount 2 + binder image tag "v2", 2 = global nodeSelector + tolerations + security context 3 = label selectors / pull secrets / node selector with several entries; (variant 2 has no pull secrets: the operator merges them into service accounts that other actors add secrets to, deliberately never removing any)
 }
 
 func (c cfgC) String() string {
@@ -92,6 +93,15 @@ func (c cfgC) config() *kaiv1.Config {
 	if c.Variant == 1 {
 		cfg.Spec.Global = &kaiv1.GlobalConfig{ReplicaCount: ptr.To(int32(2))}
 		cfg.Spec.Binder.Service.Image = &kaicommon.Image{Tag: ptr.To("v2")}
+	}
+	if c.Variant == 3 {
+		// configuration MAPS and lists with several entries (rendered into arguments / object lists)
+		cfg.Spec.Global = &kaiv1.GlobalConfig{
+			NamespaceLabelSelector: map[string]string{"team": "ml", "env": "prod", "tier": "gpu"},
+			PodLabelSelector:       map[string]string{"app": "train", "owner": "kai", "zone": "a"},
+			ImagePullSecrets:       []string{"regcred-a", "regcred-b", "regcred-c"},
+			NodeSelector:           map[string]string{"pool": "system", "arch": "amd64"},
+		}
 	}
 	if c.Variant == 2 {
 		// scheduling constraints of the components themselves: set in one configuration, gone in the next
@@ -456,8 +466,12 @@ func runCaseC(cs caseC) (*resultC, error) {
 			fmt.Sprintf("Deploy(C2) after Deploy(C1) differs from Deploy(C2) on a cluster that never saw C1 (first = after C1): %v", d)})
 	}
 	// fixpoint: repeat Deploy(C2) in the same process, and once more as a restarted operator
-	for i, dd := range []*deployable.DeployableOperands{d, newDeployable()} {
+	// (the repeated deployments run under OTHER Go map-iteration orders: what the operator renders must
+	// not depend on the order in which it happens to walk a configuration map)
+	defer maporder.Set(0)
+	for i, dd := range []*deployable.DeployableOperands{d, newDeployable(), newDeployable()} {
 		log.reset()
+		maporder.Set(uint64(i + 1))
 		if e := deployOnce(dd, c, cs.C2); e != "" {
 			res.Findings = append(res.Findings, finding{"C20/operator-deploy-error", "repeated Deploy(C2) failed: " + e})
 			return res, nil
@@ -467,7 +481,7 @@ func runCaseC(cs caseC) (*resultC, error) {
 		if err != nil {
 			return nil, err
 		}
-		who := [...]string{"same-process", "restarted-operator"}[i]
+		who := [...]string{"same-process", "restarted-operator", "restarted-operator"}[i]
 		if len(log.calls) > 0 {
 			if len(diffSnap(again, got)) == 0 {
 				res.NoopCalls += len(log.calls)
@@ -522,6 +536,9 @@ func casesC(tier string) []caseC {
 		c2 := cfgC{Mask: m}
 		out = append(out, caseC{C1: c2, C2: c2, Start: "tls", PromCRD: true})
 		out = append(out, caseC{C1: c2, C2: c2, Start: "tls+foreign", PromCRD: true})
+		if n := popcount(m); n == 1 || n == 8 {
+			out = append(out, caseC{C1: cfgC{Mask: m, Variant: 3}, C2: cfgC{Mask: m, Variant: 3}, Start: "tls", PromCRD: true})
+		}
 		for _, c1 := range []cfgC{{Mask: all}, {Mask: 0}, {Mask: m, Variant: 1}, {Mask: m, Variant: 2}} {
 			out = append(out, caseC{C1: c1, C2: c2, Start: "tls+deployed-c1", PromCRD: true})
 		}
